@@ -53,9 +53,16 @@ func CheckC19(e *Env) (int, error) {
 			break
 		}
 		var jobs []*Job
+		// the assembly side rotates through its configurations: the plain
+		// build, GOAMD64=v3, the plain build with every optional CPU feature
+		// reported absent (a tree may pick routines at run time)
 		binA, asmVar := binA, "asm"
-		if binV3 != "" && round%2 == 1 {
+		var asmEnv []string
+		switch {
+		case binV3 != "" && round%2 == 1:
 			binA, asmVar = binV3, simrunAsmV3.Name
+		case round%4 == 2:
+			asmVar, asmEnv = asmCPUOff, cpuOffEnv
 		}
 		for k := 0; k < 8; k++ {
 			pf := (round*8 + k) * poolPer
@@ -66,11 +73,11 @@ func CheckC19(e *Env) (int, error) {
 				extra = []string{"-trace"}
 			}
 			jobs = append(jobs,
-				&Job{Bin: binA, Variant: asmVar, World: "pool", Prop: prop, From: pf, N: poolPer, Extra: extra},
+				&Job{Bin: binA, Variant: asmVar, World: "pool", Prop: prop, From: pf, N: poolPer, Extra: extra, Env: asmEnv},
 				&Job{Bin: binP, Variant: "purego", World: "pool", Prop: prop, From: pf, N: poolPer},
-				&Job{Bin: binA, Variant: asmVar, World: "sign", Prop: prop, From: sf, N: signPer},
+				&Job{Bin: binA, Variant: asmVar, World: "sign", Prop: prop, From: sf, N: signPer, Env: asmEnv},
 				&Job{Bin: binP, Variant: "purego", World: "sign", Prop: prop, From: sf, N: signPer},
-				&Job{Bin: binA, Variant: asmVar, World: "lookup", Prop: prop, From: lf, N: lookPer},
+				&Job{Bin: binA, Variant: asmVar, World: "lookup", Prop: prop, From: lf, N: lookPer, Env: asmEnv},
 				&Job{Bin: binP, Variant: "purego", World: "lookup", Prop: prop, From: lf, N: lookPer})
 		}
 		e.RunJobs(jobs)
@@ -133,8 +140,11 @@ func CheckC19(e *Env) (int, error) {
 			}
 		}
 		sideBin, sideVar := binA, "asm"
-		if asmSide[best] == simrunAsmV3.Name {
+		switch asmSide[best] {
+		case simrunAsmV3.Name:
 			sideBin, sideVar = binV3, simrunAsmV3.Name
+		case asmCPUOff:
+			sideVar = asmCPUOff
 		}
 		path, v, err := e.reportDivergence(sideBin, sideVar, binP, best.world, best.idx, jobFrom[best], digA[best], digP[best])
 		if err != nil {
@@ -155,6 +165,9 @@ func CheckC19(e *Env) (int, error) {
 		}
 		if r.Variant == simrunAsmV3.Name {
 			return binV3, simrunAsmV3.Name
+		}
+		if r.Variant == asmCPUOff {
+			return binA, asmCPUOff
 		}
 		return binA, "asm"
 	}, budgetSeconds(e.Tier, 60, 300))
@@ -188,6 +201,7 @@ func CheckC19(e *Env) (int, error) {
 			return &Job{Bin: binA, Variant: "asm", World: "pool", Prop: prop, From: 0, N: 4, Extra: []string{"-trace"}}
 		}),
 		"history_pairs_compared":              pairs,
+		"cpu_features_off_configuration":      "in every fourth round the assembly side runs with GODEBUG=cpu.all=off (a tree may pick AVX2/BMI2/... routines at run time; their fallbacks are the assembly build too)",
 		"goamd64_v3_configuration":            v3State + ": in every second round the assembly side of the comparison is built with GOAMD64=v3 (a tree may select other assembly by microarchitecture level; 'without the purego tag' covers that build too)",
 		"diverging_pairs":                     len(diverged),
 		"operations_executed":                 a.Ops,
@@ -216,8 +230,17 @@ func CheckC19(e *Env) (int, error) {
 }
 
 // divergenceTrial replays a tape in both builds; ok iff the digests differ.
+// asmCPUOff is the plain assembly build run with every optional CPU feature
+// reported absent (GODEBUG=cpu.all=off is honoured by the runtime and by
+// golang.org/x/sys/cpu): code that picks AVX2 / BMI2 / ... routines at run
+// time takes its fallback.
+const asmCPUOff = "asm-cpuoff"
+
+var cpuOffEnv = []string{"GODEBUG=cpu.all=off"}
+
 func (e *Env) divergenceTrial(binA, binP string, rf *replay.File, t Tape, tag string) (bool, *kernel.Result, *kernel.Result) {
-	ra, _, err := e.replayOnce(binA, strings.TrimSuffix(rf.Variant, "+purego"), rf, t, nil, tag+"a")
+	av := strings.TrimSuffix(rf.Variant, "+purego")
+	ra, _, err := e.replayOnce(binA, av, rf, t, nil, tag+"a")
 	if err != nil || ra == nil {
 		return false, nil, nil
 	}
@@ -247,6 +270,9 @@ func firstDiff(a, b []string) (int, string, string) {
 func (e *Env) reportDivergence(binA, asmVar, binP, world string, idx, jobFrom int, batchDigA, batchDigP string) (string, kernel.Violation, error) {
 	// record the tape (assembly build)
 	j := &Job{Bin: binA, Variant: asmVar, World: world, Prop: "C19", From: idx, N: 1, Extra: []string{"-tape"}}
+	if asmVar == asmCPUOff {
+		j.Env = cpuOffEnv
+	}
 	e.runJob(j)
 	if j.Err != nil || len(j.Results) != 1 {
 		return "", kernel.Violation{}, harnessErr("could not record tape of %s#%d: %v", world, idx, j.Err)
